@@ -252,6 +252,11 @@ class Gen:
 def render(g, plan):
     """source text + map line number -> (statement index, 's'|'m')"""
     lines = ["\tcpu %s" % TARGETS[g.cpu0]["name"], "\toutradix 10"]
+    # every other program needs a second pass (forward reference without code): per-pass re-initialisation of
+    # counters / phase offsets / stacks is then observable, the values compared are those of the last pass
+    two_pass = (len(g.stmts) % 2 == 1)
+    if two_pass:
+        lines.append("Q_FWD\tequ\tQ_END")
     lmap = {}
     for i, (tok, src, label, kind) in enumerate(g.stmts):
         is_struct = tok.split(":")[1] in ("struct", "endstruct")
@@ -265,6 +270,8 @@ def render(g, plan):
         vals = ";".join("\\{%s}" % sym_name(s) for s in syms) or "-"
         lines.append("\tmessage \"@%d \\{$} \\{MOMCPU} \\{LISTON} \\{MOMSEGMENT} %s\"" % (i, vals))
         lmap[len(lines)] = (i, "m")
+    if two_pass:
+        lines.append("Q_END:")
     return "\n".join(lines) + "\n", lmap
 
 
@@ -276,8 +283,8 @@ def observe(bdir, wd, idx, src, lmap, n):
     f = os.path.join(wd, "q%d.asm" % idx)
     pf = os.path.join(wd, "q%d.p" % idx)
     open(f, "w").write(src)
-    rc, so, se = common.run_tool(bdir, "asl", ["-q", "-n", f, "-o", pf], wd, timeout=60)
-    sig = -rc if isinstance(rc, int) and rc < 0 else (99 if rc == "timeout" else 0)
+    rc, so, se = common.run_tool(bdir, "asl", ["-q", "-n", f, "-o", pf], wd, timeout=20, env={"ASL_VERIF_MAX_PASSES": "8"})
+    sig = -rc if isinstance(rc, int) and rc < 0 else (99 if rc in ("timeout", 97) else 0)
     obs = {}
     for line in so.decode(errors="replace").split("\n"):
         m = MSG_RE.match(line.strip())
